@@ -24,10 +24,12 @@ IMPL = {
     "intervals.is_perfect_consonant": intervals.is_perfect_consonant,
     "intervals.is_imperfect_consonant": intervals.is_imperfect_consonant,
     "intervals.is_dissonant": intervals.is_dissonant,
+    # the general helper the constructors do not use; called with keys that carry accidentals, BETWEEN the other calls
+    "intervals.get_interval": lambda n, k, key: intervals.get_interval(n, k, key),
 }
 
 def has_model(c):
-    return True
+    return c["fn"] != "intervals.get_interval"
 
 def cases(tier, rng):
     n = 6 if tier == "quick" else 8
@@ -38,6 +40,15 @@ def cases(tier, rng):
         nm = rng.choice(LETTERS) + "".join(rng.choice("#b") for _ in range(rng.randint(7, 40)))
         for ct in SPEC:
             yield Case("intervals.ctor", [ct, nm], "ctor/long")
+    # names with more accidentals than any recursion limit allows frames (a valid name has ANY number of accidentals)
+    for nm in ("C" + "#" * 1500, "F" + "b" * 2400, "B" + "#b" * 1300 + "#"):
+        for ct in ("major_third", "minor_second", "perfect_fifth", "major_unison"):
+            yield Case("intervals.ctor", [ct, nm], "ctor/very-long")
+        yield Case("intervals.measure", [nm, "C"], "measure/very-long")
+        yield Case("intervals.measure", ["G", nm], "measure/very-long")
+        yield Case("intervals.is_consonant", [nm, "E", True], "consonant/very-long")
+    for n, k, key in (("D", 2, "F"), ("C", 3, "Eb"), ("F#", 5, "E"), ("A", 4, "Ab"), ("B", 1, "F#"), ("E", 7, "Bb"), ("C", 4, "C")):
+        yield Case("intervals.get_interval", [n, k, key], "get_interval", model=False)
     small = list(names(2 if tier == "quick" else 3))
     for a in small:
         for b in small:
@@ -60,6 +71,10 @@ def cases(tier, rng):
 
 def oracle(c, obs):
     fn, a = c["fn"], c["args"]
+    if fn == "intervals.get_interval":
+        # (the property demands nothing of get_interval - 'mostly theoretical results'; the call is in the run because of what it may
+        #  leave behind for the calls that follow)
+        return None
     if fn == "intervals.ctor":
         up, semis = SPEC[a[0]]
         n = a[1]
